@@ -21,11 +21,12 @@ var c05Defs = map[string]string{
 	// definitions that refer onwards through the other kinds of reference
 	"@r": "{} // {additionalProperties: \"@s\"}",
 	"@t": `"t" // {type: "@s"}`,
+	"@t2": `"u" // {type: "@s"}`,
 	"@v": "{ // {allOf: \"@o\"}\n\t\"own\": 1\n}",
 	"@w": "{\n\t\"w\": @w, // {optional: true}\n\t\"u\": @s | @o\n}",
 }
-var c05Refs = map[string][]string{"@s": nil, "@o": nil, "@p": {"@s"}, "@q": {"@p"}, "@r": {"@s"}, "@t": {"@s"}, "@v": {"@o"}, "@w": {"@w", "@s", "@o"}}
-var c05All = []string{"@s", "@o", "@p", "@q", "@r", "@t", "@v", "@w"}
+var c05Refs = map[string][]string{"@s": nil, "@o": nil, "@p": {"@s"}, "@q": {"@p"}, "@r": {"@s"}, "@t": {"@s"}, "@t2": {"@s"}, "@v": {"@o"}, "@w": {"@w", "@s", "@o"}}
+var c05All = []string{"@s", "@o", "@p", "@q", "@r", "@t", "@t2", "@v", "@w"}
 var c05Extras = map[string]string{"@z1": `1`, "@z2": "{\n\t\"zz\": \"a\"\n}", "@z3": `1 // {or: [{type: "integer", min: 0}, {type: "boolean"}]}`}
 
 // c05Site: one reference site = a value text (single element, possibly with an
@@ -58,6 +59,9 @@ func c05Sites() []c05Site {
 	out = append(out, c05Site{Pos: "value-shortcut-nullable", Text: "@w", Ann: `{nullable: true}`, Names: []string{"@w"}})
 	out = append(out, c05Site{Pos: "or-string-item", Text: `"v"`, Ann: `{or: ["@s", "integer"]}`, Names: []string{"@s"}})
 	out = append(out, c05Site{Pos: "or-type-item", Text: `"v"`, Ann: `{or: [{type: "@s"}, {type: "integer"}]}`, Names: []string{"@s"}})
+	// two alternatives that lead to the same type (a diamond, not a recursion)
+	out = append(out, c05Site{Pos: "or-diamond", Text: `"v"`, Ann: `{or: ["@t", "@t2"]}`, Names: []string{"@t", "@t2"}})
+	out = append(out, c05Site{Pos: "or-diamond", Text: `"v"`, Ann: `{or: [{type: "@t2"}, {type: "@s"}]}`, Names: []string{"@t2", "@s"}})
 	// a rule-set that carries a second rule is kept as an unnamed type
 	out = append(out, c05Site{Pos: "or-type-item+rule", Text: `"v"`, Ann: `{or: [{type: "@s", nullable: true}, {type: "integer"}]}`, Names: []string{"@s"}})
 	out = append(out, c05Site{Pos: "or-type-item+rule", Text: `"v"`, Ann: `{or: [{type: "integer", min: 0}, {type: "@t", nullable: true}]}`, Names: []string{"@t"}})
@@ -330,7 +334,7 @@ func init() {
 	Register(&Prop{
 		ID:        "C05",
 		Technique: "bounded exhaustive enumeration of schema projects x every subset of type definitions registered or withheld x unreferenced extra types, judged by a reachability reference over the model",
-		Rule:      "roots with one or two reference sites from the 8 positions (value shortcut, @a | @b, key shortcut, type, or string item, or {type} item, allOf scalar and list, additionalProperties) at the root, in a property, in an array item; 8 closed definitions (string, object, object->string, object->object->string, and types referring onwards through additionalProperties, type, allOf, a self reference and a choice) x every subset of the reachable closure registered or withheld x {0,1,2} unreferenced valid types; thorough: all pairs and three-site roots; clauses: UsedUserTypes() = names in the root text without duplicates; 1302 naming a missing type iff a name reachable through registered definitions is unregistered; extras change no observable; non-trivial = projects outside the excluded region",
+		Rule:      "roots with one or two reference sites from the 8 positions (value shortcut, @a | @b, key shortcut, type, or string item, or {type} item, allOf scalar and list, additionalProperties) at the root, in a property, in an array item; 9 closed definitions (string, object, object->string, object->object->string, and types referring onwards through additionalProperties, type, allOf, a self reference and a choice) x every subset of the reachable closure registered or withheld x {0,1,2} unreferenced valid types; thorough: all pairs and three-site roots; clauses: UsedUserTypes() = names in the root text without duplicates; 1302 naming a missing type iff a name reachable through registered definitions is unregistered; extras change no observable; non-trivial = projects outside the excluded region",
 		Bounds: func(tier string) map[string]any {
 			return map[string]any{"sites": len(c05Sites()), "roots": len(c05Roots()), "definitions": len(c05All)}
 		},
